@@ -11,6 +11,7 @@ CONSTANTS
   Addl <- QAddl
   Ops <- MCOps
   MaxWord = 0
+  Letters = {"n", "b"}
 VIEW DumpView
 ACTION_CONSTRAINT Emit
 CHECK_DEADLOCK FALSE
